@@ -358,6 +358,40 @@ def r9_timeout_handed_over(ctx: Context) -> None:
     ctx.floor("C05.R9", "calls of the next-scheduler routine", n, 1)
 
 
+def r12_requeued_placement_stays_registered(ctx: Context) -> None:
+    ctx.rule("C05.R12", "a TASK_PLACEMENT event that a handler re-queues (task or worker not ready) is also stored as the task's "
+                        "pending placement (`_future_placement_events[task.id] = <that event>`) on every path: the cache and the queue name "
+                        "the same event, otherwise a later identity / cancellation lookup drops the only placement the task has")
+    sim = Sim(ctx.repo)
+    n = 0
+    ph = sim.handler("TASK_PLACEMENT")
+    for name, m in sim.methods.items():
+        evs = list(event_constructions(m, "TASK_PLACEMENT"))
+        if m is ph:
+            # inside the TASK_PLACEMENT handler `Event(event_type=event.event_type, ...)` re-creates a placement event
+            evs += [c for c in ast.walk(m) if isinstance(c, ast.Call) and call_name(c) == "Event"
+                    and any(k.arg == "event_type" and norm(k.value).endswith(".event_type") for k in c.keywords)]
+        if not evs:
+            continue
+        g = cfgmod.build(m)
+        for e in evs:
+            asg = parent(e)
+            if not (isinstance(asg, ast.Assign) and isinstance(asg.targets[0], ast.Name)):
+                continue
+            var = asg.targets[0].id
+            adds = [c for c in calls_in(m, "add_event") if c.args and isinstance(c.args[0], ast.Name) and c.args[0].id == var and g.dominates(g.node_of(asg), g.node_of(c))]
+            for a in adds:
+                n += 1
+                an = g.node_of(a)
+                stores = [x for x in ast.walk(m) if isinstance(x, ast.Assign) and isinstance(x.targets[0], ast.Subscript)
+                          and is_self_attr(x.targets[0].value, "_future_placement_events") and isinstance(x.value, ast.Name) and x.value.id == var]
+                ok = any(g.dominates(g.node_of(st), an) or (g.dominates(an, g.node_of(st)) and not g.reachable(an, g.ret, avoid={g.node_of(st).id})) for st in stores)
+                ctx.check(ok, "C05.R12", f"{qualname(m)}|re-queued `{var}` registered as the pending placement", loc(a), "cache store paired with add_event",
+                          f"`{var}` is put back into the event queue but `_future_placement_events` keeps pointing at the consumed event: the task's only "
+                          "placement can be dropped as superseded / cannot be found for cancellation, and the task stays SCHEDULED for ever")
+    ctx.floor("C05.R12", "re-queued TASK_PLACEMENT events", n, 2)
+
+
 def r4_no_stuck_running(ctx: Context) -> None:
     ctx.rule("C05.R4", "Task.step never answers 'not finished' for a RUNNING task whose remaining time is zero, unless "
                        "its completion was already reported")
@@ -481,6 +515,7 @@ def run(ctx: Context) -> None:
     ctx.isolate(r5_strategy_supplied)
     ctx.isolate(r7_end_of_work)
     ctx.isolate(r9_timeout_handed_over)
+    ctx.isolate(r12_requeued_placement_stays_registered)
     from . import c19
     ctx.isolate(c19.r6_closed_loop, _alias={"C19.R6": "C05.R10"})
     from . import c06
